@@ -81,8 +81,7 @@ static void ref_parse(const char *text, RFile *r)
     memset(r, 0, sizeof *r);
     for (line = strtok_r(copy, "\n", &save); line; line = strtok_r(NULL, "\n", &save)) {
         char *l = line, *eq, *k, *v;
-        if (first && (unsigned char)l[0] == 0xEF && (unsigned char)l[1] == 0xBB && (unsigned char)l[2] == 0xBF) l += 3;
-        first = 0;
+        first = 0;        /* (a byte-order mark is taken off by the caller) */
         l = rstrip(l);
         if (!*l || *l == '#' || *l == ';') continue;                    /* blank / comment line */
         if (*l == '[' && l[strlen(l) - 1] == ']') {
@@ -103,10 +102,14 @@ static void ref_parse(const char *text, RFile *r)
 }
 static int ref_bool(const char *v) { if (!strcmp(v, "true") || !strcmp(v, "TRUE")) return 1; if (!strcmp(v, "false") || !strcmp(v, "FALSE")) return 0; return atoi(v) > 0; }
 
-static void run_grammar(const char *text, size_t n)
+/* byte-order marks the documentation says are skipped: none, UTF-8, UTF-16 BE / LE, UTF-32 BE / LE */
+static const unsigned char BOMS[6][4] = {{0}, {0xEF, 0xBB, 0xBF}, {0xFE, 0xFF}, {0xFF, 0xFE}, {0x00, 0x00, 0xFE, 0xFF}, {0xFF, 0xFE, 0x00, 0x00}};
+static const int BOMLEN[6] = {0, 3, 2, 2, 4, 4};
+static int bom_of(const unsigned char *d, size_t n) { int b; for (b = 5; b >= 1; b--) if (n >= (size_t)BOMLEN[b] && !memcmp(d, BOMS[b], BOMLEN[b]) && !(b == 3 && n >= 4 && !memcmp(d, BOMS[5], 4))) return b; return 0; }
+static void run_grammar_bom(const char *text, size_t n, int bom)
 {
     PIniFile *f; RFile r; int i, j, nsec = 0; PList *secs, *s;
-    set_content((const unsigned char *)text, n);
+    { static unsigned char file[8600]; memcpy(file, BOMS[bom], BOMLEN[bom]); memcpy(file + BOMLEN[bom], text, n); set_content(file, n + BOMLEN[bom]); }
     n_eval++;
     ref_parse(text, &r);
     f = p_ini_file_new(mempath);
@@ -154,11 +157,14 @@ static void run_grammar(const char *text, size_t n)
     p_ini_file_free(f);
 }
 
+static void run_grammar(const char *text, size_t n) { int b = bom_of((const unsigned char *)text, n); run_grammar_bom(text + BOMLEN[b], n - BOMLEN[b], b); }      /* content that may start with a mark (replay, long lines) */
+
 static const char *KINDS[] = {
     "", "# c", "; c = 1", "#k=1", "[s]", "[ t ]", "k=v", "k = w", "q = \"v;#\"", "q = 'v #'", "k = v ; c", "k = v=w", "k = \"\"", "q = {a b  c}",
     "k = 12", "q = -3.5e2", "k = TRUE", "q = false", "k = 1", "  k  =  v2  ", "q = v # c", "k = {x}", "q = 0",
     "k = \"\" ; c", "q = '' # c",                      /* empty quotes followed by a blank and a comment */
-    "q = {100 20 3}", "k = {ab c defg h}",             /* list items that get shorter / longer from one to the next */
+    "q = {100 20 3}", "k = {ab c defg h}",
+    "  # k = 1", "\t; q = 2",                         /* comment lines that are indented */             /* list items that get shorter / longer from one to the next */
     "[ ]", "[]",        /* blank section names: behaviour not documented -> robustness only */
 };
 #define NK ((int)(sizeof KINDS / sizeof KINDS[0]))
@@ -187,13 +193,12 @@ int main(int argc, char **argv)
         int N = atoi(argv[2]), shard = atoi(argv[3]), ns = atoi(argv[4]), n, bom; long code, total, idx = 0;
         for (n = 1; n <= N; n++) {
             total = 1; for (i = 0; i < n; i++) total *= NK;
-            for (code = 0; code < total; code++) for (bom = 0; bom < 2; bom++, idx++) {
+            for (code = 0; code < total; code++) for (bom = 0; bom < (n <= 2 ? 6 : 2); bom++, idx++) {
                 char text[512]; size_t o = 0; long c = code;
                 if (idx % ns != shard) continue;
-                if (bom) { text[0] = (char)0xEF; text[1] = (char)0xBB; text[2] = (char)0xBF; o = 3; }
                 for (i = 0; i < n; i++) { o += snprintf(text + o, sizeof text - o, "%s\n", KINDS[c % NK]); c /= NK; }
                 hout_progress("sig=grammar/crash ini_enum replay grammar (index %ld)", idx);
-                run_grammar(text, o);
+                run_grammar_bom(text, o, bom);
             }
         }
     } else if (!strcmp(MODE, "long")) {
